@@ -136,6 +136,8 @@ class OrderAnalysis:
                 spec = self._indexers(e)
                 if self.dim in spec:
                     ix = spec[self.dim]
+                    if m == "isel" and isinstance(ix, ast.Name) and ix.id in getattr(self, "unique_index", ()):
+                        return SORTED
                     if m == "sel":
                         ct = self.coord_of(ix)
                         if ct is not None:
@@ -196,6 +198,8 @@ class OrderAnalysis:
                         ix = spec[self.dim]
                         t = self.tag(recv)
                         self.checked += 1
+                        if m == "isel" and isinstance(ix, ast.Name) and ix.id in getattr(self, "unique_index", ()):
+                            continue        # positions computed by np.unique(values, return_index=True): order-independent by construction
                         if m == "isel" and self._caller_order(t) and not self._full_slice(ix):
                             self.event("POS", n, f"positional selection along '{self.dim}' on data stored in the caller's order "
                                                  f"({self._show(t)}): which bin is meant depends on how the directions happen to be stored")
@@ -229,14 +233,44 @@ class OrderAnalysis:
                 ct = self.coord_of(n.value)
                 if ct is not None and ct != ("unk",) and self._const_pos(n.slice):
                     self.checked += 1
-                    if self._caller_order(ct) and not self._inside_angle(n):
+                    if self._caller_order(ct) and not self._inside_angle(n) and not self._feeds_circular_fold(n):
                         self.event("POS", n, f"'{unparse(n)}' reads the {self.dim} coordinate at a storage position of caller-ordered "
                                              f"data ({self._show(ct)}): first/last stored is not lowest/highest")
                 elif isinstance(n.value, ast.Name) and self.env.get(n.value.id) is not None and self._caller_order(self.env.get(n.value.id)) \
-                        and n.value.id in ("dir", "dirs", self.dim) and self._const_pos(n.slice) and not self._inside_angle(n):
+                        and n.value.id in ("dir", "dirs", self.dim) and self._const_pos(n.slice) and not self._inside_angle(n) and not self._feeds_circular_fold(n):
                     self.checked += 1
                     self.event("POS", n, f"'{unparse(n)}' takes a storage position of the caller-supplied direction array: "
                                          "first/last stored is not lowest/highest unless the caller sorted it")
+
+    def _feeds_circular_fold(self, n):
+        """dir[k] bound to a name that is only ever used as `<name> % 360` inside an absolute difference folded by
+        minimum(d, 360 - d): the body of utils.angle written in place."""
+        st = n
+        while st is not None and not isinstance(st, ast.stmt):
+            st = getattr(st, "_parent", None)
+        if not isinstance(st, ast.Assign):
+            return False
+        names = []
+        tg = st.targets[0]
+        if isinstance(tg, ast.Name) and st.value is n:
+            names = [tg.id]
+        elif isinstance(tg, (ast.Tuple, ast.List)) and isinstance(st.value, (ast.Tuple, ast.List)) and len(tg.elts) == len(st.value.elts):
+            names = [t.id for t, v in zip(tg.elts, st.value.elts) if v is n and isinstance(t, ast.Name)]
+        if not names:
+            return False
+        fn = self.fi.node
+        fold = any(isinstance(c, ast.Call) and call_name(c).split(".")[-1] in ("minimum", "fmin", "min") and len(c.args) == 2 and
+                   isinstance(c.args[1], ast.BinOp) and isinstance(c.args[1].op, ast.Sub) and self.repo.const(self.mod, c.args[1].left) == 360 and
+                   unparse(c.args[1].right) == unparse(c.args[0]) for c in ast.walk(fn))
+        if not fold:
+            return False
+        for nm in names:
+            for u in ast.walk(fn):
+                if isinstance(u, ast.Name) and u.id == nm and isinstance(u.ctx, ast.Load):
+                    p = getattr(u, "_parent", None)
+                    if not (isinstance(p, ast.BinOp) and isinstance(p.op, ast.Mod) and p.left is u and self.repo.const(self.mod, p.right) == 360):
+                        return False
+        return True
 
     def _inside_angle(self, n):
         p = getattr(n, "_parent", None)
@@ -342,6 +376,13 @@ class OrderAnalysis:
                     for e in tg.elts:
                         if isinstance(e, ast.Name):
                             self.env[e.id] = t
+                    # `_, index = np.unique(X[dim], return_index=True)`: index selects the first occurrence of each value IN ASCENDING
+                    # VALUE ORDER, whatever the stored order of X: X.isel(dim=index) is sorted and free of duplicates
+                    v = s.value
+                    if isinstance(v, ast.Call) and call_name(v).split(".")[-1] == "unique" and v.args and len(tg.elts) == 2 \
+                            and kwarg(v, "return_index") is not None and self.repo.const(self.mod, kwarg(v, "return_index")) is True \
+                            and self.coord_of(v.args[0]) is not None and isinstance(tg.elts[1], ast.Name):
+                        self.unique_index = getattr(self, "unique_index", set()) | {tg.elts[1].id}
         elif isinstance(s, ast.AugAssign):
             self.check_expr(s.value)
         elif isinstance(s, ast.Expr):
